@@ -89,6 +89,9 @@ class Pairs(Part):
         for dim, ops in ((1, 4), (2, 3)) if ctx.quick else ((1, 5), (2, 3), (3, 2)):
             out.append(tlc.run("Identity", MC_CFG % (dim, ops), ctx.scratch, workers=4, coverage=True,
                                name="Identity-mc-d%d" % dim, timeout=900))
+        # TLAPS side-car (not the deciding mechanism): the equality laws for any number of coordinates, and non-transitivity of tolerance equality
+        tlc.sidecar(ctx, "tlapm proofs/IdentityLaws.tla (reflexive, symmetric, identical => equal, any coordinate decides, not transitive)",
+                    tlc.tlapm, "proofs/IdentityLaws.tla", ctx.scratch)
         return out
 
     def cases(self, ctx):
